@@ -28,9 +28,11 @@ def log(*a):
 
 
 class Lock:
-    def __init__(self, name, shared=False):
-        os.makedirs(CACHE, exist_ok=True)
-        self.path = os.path.join(CACHE, name + ".lock")
+    def __init__(self, name, shared=False, global_=False):
+        # global_: the resource is shared by every cache (the one lake project in /verif/lean), so the lock must be too
+        d = "/var/tmp/simbody-verif" if global_ else CACHE
+        os.makedirs(d, exist_ok=True)
+        self.path = os.path.join(d, name + ".lock")
         self.shared = shared
 
     def __enter__(self):
@@ -149,7 +151,7 @@ def build_harness(name, extra=(), sanitize=False, opt="-O2"):
 
 # --------------------------------------------------------------------------- S2
 def lake_build(targets, timeout=3000):
-    with Lock("lake"):  # same lock file as tools/lk
+    with Lock("lake", global_=True):  # same lock file as tools/lk
         rc, o, e = sh(["lake", "build", *targets], cwd=LEAN, timeout=timeout)
     return rc == 0, (o + e)
 
